@@ -7,11 +7,9 @@ Hists == ndJsonDeserialize(IOEnv.HISTS)
 VARIABLE hid
 OInit == \E n \in 1..Len(Hists) :
            /\ hid = n
-           /\ io = ImplLiteral(Hists[n].lit)
+           /\ io = ImplCreate(Hists[n].lit)
            /\ refok = TRUE
-           /\ hist = <<[op |-> [k |-> "lit", els |-> Hists[n].lit], ret |-> <<"none">>,
-                        d |-> Ref!A!Dump(Ref!A!Literal(Hists[n].lit)), kind |-> io.kind, lret |-> <<"none">>,
-                        ld |-> Ref!A!Dump(Ref!A!Literal(Hists[n].lit))]>>
+           /\ hist = <<InitRecord(Hists[n].lit, io.kind)>>
 ONext == /\ Len(hist) <= Len(Hists[hid].ops)
          /\ Move(Hists[hid].ops[Len(hist)])
          /\ UNCHANGED hid
